@@ -254,6 +254,14 @@ func (serv *ExchangeServer[H]) handleRangeRequest(
 			return nil, header.ErrNotFound
 		}
 
+		if head.Height() >= to-1 {
+			// the range ends below the tail, so it must not be extended up to the head
+			span.SetStatus(codes.Error, header.ErrNotFound.Error())
+			log.Debugw("server: requested headers are below the tail", "from", from, "to", to)
+			serv.metrics.rangeServed(ctx, time.Since(startTime), to-from, true)
+			return nil, header.ErrNotFound
+		}
+
 		log.Debugw("server: serving partial range",
 			"prevMaxHeight", to,
 			"newMaxHeight", head.Height()+1,
